@@ -125,7 +125,6 @@ func (f *zc33FakeGCS) serve(w http.ResponseWriter, r *http.Request) {
 type zc33Stream struct {
 	Pos    int
 	blocks int
-	buf    []byte
 }
 
 func zc33Cap(i int) int {
@@ -156,16 +155,12 @@ func (s *zc33Stream) block(k int) []byte {
 }
 
 func (s *zc33Stream) Read(p []byte) (int, error) {
-	for len(s.buf) < len(p) {
+	// every Read starts at a fresh block, so a reader never sees part of an earlier block
+	for off := 0; off < len(p); off += 16 {
 		s.blocks++
-		s.buf = append(s.buf, s.block(s.blocks)...)
+		copy(p[off:], s.block(s.blocks))
 	}
-	n := copy(p, s.buf)
-	s.buf = s.buf[n:]
-	if len(p)%16 == 0 {
-		s.buf = nil // whole blocks only: never let a reader straddle two blocks
-	}
-	return n, nil
+	return len(p), nil
 }
 
 func (s *zc33Stream) name() string {
@@ -187,7 +182,7 @@ type zc33Cfg struct {
 func zc33Configs() []zc33Cfg {
 	alt, none, zst := []string{"", "zstd"}, []string{""}, []string{"zstd"}
 	var out []zc33Cfg
-	positions := venum.QT([]int{0, 6, 8, 15, -1}, []int{0, 1, 2, 3, 4, 5, 6, 7, 8, 9, 10, 11, 12, 13, 14, 15, -1})
+	positions := venum.QT([]int{0, 6, 8, 15, -1}, []int{0, 3, 4, 6, 7, 8, 9, 15, -1})
 	for _, p := range positions {
 		out = append(out, zc33Cfg{pos: p, enc: alt, prefix: ""})
 	}
@@ -266,7 +261,7 @@ func TestVerif_C33_GCS(t *testing.T) {
 		for i := 0; i < n; i++ {
 			d := x.Deviate(len(zc33Steps), fmt.Sprintf("clock-before-upload-%d", i))
 			vsched.Advance(zc33Steps[d])
-			payload := fmt.Sprintf("payload-%d", i)
+			payload := "same-payload" // identical data is the worst case for a key derived from the data
 			enc := cfg.enc[i%len(cfg.enc)]
 			before, b0 := len(fake.objs), stream.blocks
 			u, err := st.Upload([]byte(payload), nil, enc)
@@ -322,8 +317,8 @@ func TestVerif_C33_GCS(t *testing.T) {
 					}
 				}
 				x.Failf("C33:gcs:key-reused:"+class,
-					"uploads #%d and #%d (clock readings %d ns apart, entropy blocks read %d and %d, stream %s) both wrote object %q: payload-%d was overwritten by payload-%d",
-					i, j, ups[j].at.Sub(ups[i].at).Nanoseconds(), ups[i].blocks, ups[j].blocks, stream.name(), ups[i].key, i, j)
+					"uploads #%d and #%d (clock readings %d ns apart, entropy blocks read %d and %d, stream %s) both wrote object %q: upload #%d overwrote the object written by upload #%d",
+					i, j, ups[j].at.Sub(ups[i].at).Nanoseconds(), ups[i].blocks, ups[j].blocks, stream.name(), ups[i].key, j, i)
 			}
 		}
 		entropy := true
